@@ -55,7 +55,7 @@ pub fn scripts() -> Vec<(&'static str, Vec<J>)> {
         // a signed package (the signature is added to the closed file by a signing tool), opened and un-signed
         ("unsign", vec![create.clone(), ctab.clone(), ins.clone(), into.clone(), ev("AddSignature", json!({})), ev("Reopen", json!({})), ev("RemoveSignature", json!({})), flush.clone()]),
         // stream-level calls only since the last save: they write through the container, and the save still has to flush the medium
-        ("streams-only", vec![create.clone(), flush.clone(), ev("WriteStream", json!({"name": cps("s"), "data": "g100_5"})), flush.clone(), ev("RemoveStream", json!({"name": cps("s")})), ev("WriteStream", json!({"name": cps("t"), "data": "b0102"})), flush.clone()]),
+        ("streams-only", vec![create.clone(), flush.clone(), ev("WriteStream", json!({"name": cps("s"), "data": "g100_5"})), flush.clone(), ev("WriteStream", json!({"name": cps("t"), "data": "b0102"})), ev("RemoveStream", json!({"name": cps("s")})), flush.clone()]),
         ("mixed", vec![create.clone(), ctab.clone(), ins.clone(), upd.clone(), ev("WriteStream", json!({"name": cps("s"), "data": "b0102"})), ev("SetSummary", json!({"field": "comments", "value": s("c")})), del.clone(), flush.clone(), ev("RemoveStream", json!({"name": cps("s")})), into.clone()]),
     ]
 }
@@ -87,6 +87,9 @@ pub fn main(args: &Args) -> i32 {
             }
         };
         let counts = base.2;
+        if !base.3 {
+            viols.lock().unwrap().push(json!({"kind": "fault-lost", "op": name, "what": "without any fault every call returned Ok, but what the medium holds durably (its bytes at its last flush()) is not what it holds now: the last save did not flush the medium", "case": {"script": name, "fault": {"kind": "none"}}}));
+        }
         // the fault-free run of every script is validated by TLC as a whole
         trace.lock().unwrap().extend(traced_rerun(&script, Fault { kind: Kind::Write, k: u64::MAX / 2, persistent: false, ekind: 0 }));
         let mut jobs: Vec<Fault> = Vec::new();
@@ -166,7 +169,7 @@ pub fn main(args: &Args) -> i32 {
 }
 
 /// fault-free run: results, final projected state (after the last close: from the bytes), call counts
-fn run_with(script: &[J], _f: Option<Fault>) -> (Vec<String>, Option<J>, (u64, u64, u64)) {
+fn run_with(script: &[J], _f: Option<Fault>) -> (Vec<String>, Option<J>, (u64, u64, u64), bool) {
     let mut sess = Session::empty();
     let mut res = Vec::new();
     let mut counts = (0u64, 0u64, 0u64);
@@ -188,9 +191,11 @@ fn run_with(script: &[J], _f: Option<Fault>) -> (Vec<String>, Option<J>, (u64, u
         let ok = r == "Ok";
         res.push(r);
         if !ok {
-            return (res, None, counts);
+            return (res, None, counts, true);
         }
     }
+    // (into_inner hands the medium back with every byte written to it; flushing it is then the caller's business)
+    let durable_ok = script.last().map(|e| e["op"] != "Flush").unwrap_or(true) || sess.med.snap_durable() == sess.med.snap();
     // the state the calls describe = what the bytes hold after the fault-free run
     let mut s2 = Session::empty();
     s2.med = crate::media::Medium::new(sess.med.snap());
@@ -201,7 +206,7 @@ fn run_with(script: &[J], _f: Option<Fault>) -> (Vec<String>, Option<J>, (u64, u
         }
         Err(_) => None,
     };
-    (res, st, counts)
+    (res, st, counts, durable_ok)
 }
 
 /// one faulty run: the k-th call of the given kind, counted over the WHOLE script, fails
@@ -277,7 +282,7 @@ fn run_with_fault(script: &[J], f: Fault, base_state: &J) -> (Vec<String>, Resul
     fired += sess.med.counters().faults;
     sess.med.set_fault(None);
     // what counts is what the medium holds durably: the bytes at its last flush() (a save that reports success has flushed it)
-    let verdict = check_bytes(&sess, base_state, true).map_err(|e| e.1);
+    let verdict = check_bytes(&sess, base_state, script.last().map(|e| e["op"] == "Flush").unwrap_or(false)).map_err(|e| e.1);
     // a full trace of this run (re-executed with state logging) for TLC, when the fault fired but nothing reported it
     if fired > 0 {
         tr = traced_rerun(script, f);
